@@ -34,6 +34,7 @@ func main() {
 		return
 	}
 	seed, _ := strconv.ParseInt(os.Args[2], 10, 64)
+	auxSeed = seed
 	n, _ := strconv.Atoi(os.Args[3])
 	dir := os.Args[4]
 	os.MkdirAll(dir, 0o755)
